@@ -43,6 +43,7 @@ func (u unsupportedErr) Error() string { return u.msg }
 
 // VC holds the verification condition of one function under contract.
 type VC struct {
+	hasStack bool // some local was marked stackobj: havoc versions keep the contents of those objects
 	pinned []string // root terms of parameters and call results: allocation facts are carried across havocs as ground facts
 	keepHyps map[string]bool // assumed intermediate assertions (atcall) that focused renderings keep
 	implVars map[string]specVal // names of the implemented interface contract, bound to this method's parameters
@@ -437,6 +438,7 @@ type hstate struct {
 	all    bool
 	names  map[string]bool
 	cache  map[string]string
+	loop   bool // havoc at a loop head (as opposed to the effect of a call)
 }
 
 func (vc *VC) newState(kind int, parent *hstate) *hstate {
@@ -475,6 +477,11 @@ func (vc *VC) lookup(st *hstate, name, sort string) string {
 			t = fmt.Sprintf("%s@%d", name, st.id)
 			vc.emit(fmt.Sprintf("(declare-const %s %s)", t, sort))
 			vc.heapTypeAxiom(name, t, st)
+			if vc.hasStack && vc.qf == 0 && !st.loop && strings.HasPrefix(sort, "(Array Int ") && name != "alloc" && st.parent != nil {
+				// callees cannot write the caller's non-escaping locals
+				pt := vc.lookup(st.parent, name, sort)
+				vc.emit(fmt.Sprintf("(assert (forall ((r Int)) (! (=> (stackobj (root r)) (= (select %s r) (select %s r))) :pattern ((select %s r)))))", t, pt, t))
+			}
 		} else {
 			t = vc.lookup(st.parent, name, sort)
 		}
